@@ -62,6 +62,20 @@ func genCase(t *rapid.T) schedCase {
 	sc := schedCase{H: h}
 	spills := n / chunk
 	nr := rapid.IntRange(1, 3).Draw(t, "nrules")
+	if spills >= 2 && rapid.IntRange(0, 11).Draw(t, "slow-writers") == 5 {
+		// two successive writers are slow (a third of a second each, far longer than any other hold):
+		// both recycled buffers are out and the caller has to wait for one of them
+		st := rapid.SampledFrom(writerSteps[:7]).Draw(t, "slow-step")
+		k := rapid.IntRange(0, spills-2).Draw(t, "slow-k")
+		for j := 0; j < 2; j++ {
+			r := sched.Rule{Step: st, Occ: k + j, Until: "finalise-returned", TimeoutMs: rapid.SampledFrom([]int{300, 340, 420}).Draw(t, "slow-ms")}
+			if st == "write-before-encode" {
+				r.Occ = (k + j) * chunk
+			}
+			sc.Rules = append(sc.Rules, r)
+		}
+		nr--
+	}
 	for i := 0; i < nr; i++ {
 		var r sched.Rule
 		r.TimeoutMs = rapid.SampledFrom([]int{30, 60, 120}).Draw(t, "timeout")
@@ -246,6 +260,15 @@ func classes(c schedCase) []string {
 			l = append(l, "writer-held-inside-its-sort-until-the-next-sorts")
 			break
 		}
+	}
+	slow := 0
+	for _, r := range c.Rules {
+		if r.TimeoutMs >= 300 {
+			slow++
+		}
+	}
+	if slow >= 2 {
+		l = append(l, "two-writers-slower-than-a-quarter-second")
 	}
 	if over || spills >= 2 {
 		l = append(l, vlib.NT)
